@@ -69,6 +69,7 @@ type dCond struct {
 	params        []dParam
 	expr          []string // expression tokens (texts), joined without separator
 	closeSameLine bool     // the closing brace stands on the last expression line
+	swallows      bool     // the expression runs on into the declaration of another condition (its closing brace is missing)
 }
 
 type dDoc struct {
@@ -494,10 +495,26 @@ func (b *tb) condition(parent antlr.ParserRuleContext, cd dCond, idx int) *parse
 			tt = parser.OpenFGAParserPERCENT
 		case "\"100%\"", "\"%s%d\"":
 			tt = parser.OpenFGAParserSTRING
-		case "\n  ":
+		case "\n  ", "\n\n":
 			tt = parser.OpenFGAParserNEWLINE
+		case "condition":
+			tt = parser.OpenFGAParserCONDITION
+		case "(":
+			tt = parser.OpenFGAParserLPAREN
+		case ")":
+			tt = parser.OpenFGAParserRPAREN
+		case ":":
+			tt = parser.OpenFGAParserCOLON
+		case "int":
+			tt = parser.OpenFGAParserCONDITION_PARAM_TYPE
+		case "{":
+			tt = parser.OpenFGAParserLBRACE
 		}
-		b.add(ce, tt, piece)
+		tok := b.add(ce, tt, piece)
+		if piece == "condition" {
+			// where an error about the swallowed declaration has to point
+			b.names[keyOf("swallowed", idx, -1)] = tok
+		}
 	}
 	// the expression rule also swallows the line break (or the blank) in front of the closing brace
 	if cd.closeSameLine {
